@@ -260,7 +260,8 @@ impl<'a> LfnBuffer<'a> {
     /// We assume they are pushed last-chunk-first, as you would find
     /// them on disk.
     ///
-    /// Any chunk starting with a half of a surrogate pair has that saved for the next call.
+    /// A chunk starting with the second half of a surrogate pair has that saved
+    /// for the next call; halves that stay unpaired become U+FFFD.
     ///
     /// ```text
     /// [de00, 002e, 0074, 0078, 0074, 0000, ffff, ffff, ffff, ffff, ffff, ffff, ffff]
@@ -281,40 +282,48 @@ impl<'a> LfnBuffer<'a> {
         // take all the wide chars, up to the null (or go to the end)
         let buffer = &buffer[0..null_idx];
 
+        if self.overflow {
+            // nothing we could add would be shown
+            return;
+        }
+
+        // A low surrogate at the start of the previous chunk (which follows
+        // this one in the name) may be the second half of a pair whose first
+        // half ends this chunk. It was written provisionally as U+FFFD (three
+        // bytes, at the front); take that back and decode it again together
+        // with this chunk.
+        let pending = self.unpaired_surrogate.take();
+        if pending.is_some() {
+            self.free += 3;
+        }
+
         // This next part will convert the 16-bit values into chars, noting that
         // chars outside the Basic Multilingual Plane will require two 16-bit
         // values to encode (see UTF-16 Surrogate Pairs).
         //
         // We cache the decoded chars into this array so we can iterate them
-        // backwards. It's 60 bytes, but it'll have to do.
-        let mut char_vec: heapless::Vec<char, 13> = heapless::Vec::new();
-        // Now do the decode, including the unpaired surrogate (if any) from
-        // last time (maybe it has a pair now!)
+        // backwards. 13 code units plus the one carried over give at most 14
+        // chars.
+        let mut char_vec: heapless::Vec<char, 14> = heapless::Vec::new();
         let mut is_first = true;
-        for ch in char::decode_utf16(
-            buffer
-                .iter()
-                .cloned()
-                .chain(self.unpaired_surrogate.take().iter().cloned()),
-        ) {
+        for ch in char::decode_utf16(buffer.iter().cloned().chain(pending)) {
             match ch {
                 Ok(ch) => {
                     char_vec.push(ch).expect("Vec was full!?");
                 }
                 Err(e) => {
-                    // OK, so we found half a surrogate pair and nothing to go
-                    // with it. Was this the first codepoint in the chunk?
-                    if is_first {
-                        // it was - the other half is probably in the next chunk
-                        // so save this for next time
-                        trace!("LFN saved {:?}", e.unpaired_surrogate());
-                        self.unpaired_surrogate = Some(e.unpaired_surrogate());
+                    // Half a surrogate pair with nothing to go with it is
+                    // replaced. If it is a low surrogate and the very first
+                    // code unit of the chunk, its other half may still come at
+                    // the end of the next chunk: remember it.
+                    let unit = e.unpaired_surrogate();
+                    if is_first && (0xDC00..=0xDFFF).contains(&unit) {
+                        trace!("LFN saved {:?}", unit);
+                        self.unpaired_surrogate = Some(unit);
                     } else {
-                        // it wasn't - can't deal with it these mid-sequence, so
-                        // replace it
-                        trace!("LFN replaced {:?}", e.unpaired_surrogate());
-                        char_vec.push('\u{fffd}').expect("Vec was full?!");
+                        trace!("LFN replaced {:?}", unit);
                     }
+                    char_vec.push('\u{fffd}').expect("Vec was full?!");
                 }
             }
             is_first = false;
